@@ -14,5 +14,7 @@ WsSet(lts) ==
 WsCopy == WsSet({"copy"})
 WsAnyLink == WsSet({"copy", "hard", "sym"})
 CacheOkNone == [ContentsDef -> {"ok", "none"}]
+WsAbsent == {[kind |-> "absent", files |-> NoFiles]}
+CacheFull == {[c \in ContentsDef |-> "ok"]}
 CacheAny == [ContentsDef -> {"ok", "none", "bad"}]
 =============================================================================
